@@ -203,19 +203,21 @@ theorem moved_pointer_is_sent (s : Sess) (c : Client) (hm : softMoved s c = true
 /-- **shape_msg_exact**: the rectangle rfbSendCursorShape emits for an installed cursor `c0`:
 the cursor `c` actually sent has `c0`'s size, hot-spot and mask (conversion only adds the missing
 representation); it is either the "no cursor" rectangle (1×1 with empty mask: all-zero header) or
-header `x=xhot y=yhot w h encoding` followed by exactly — RichCursor: the `w*h` pixels (`bpp`
-bytes each) then the `⌈w/8⌉*h` mask bytes; XCursor: 6 colour bytes (high bytes of fore R,G,B and
+header `x=xhot y=yhot w h encoding` followed by exactly — RichCursor: the `w*h` pixels in row-major
+order, pixel `k` of the payload being `richSource` pixel `k` translated to the client's format
+(`w.tr`, `w.bpp` bytes each; this is what the input row stride `width*bpp1` of the call to
+`cl->translateFn` means), then the `⌈w/8⌉*h` mask bytes; XCursor: 6 colour bytes (high bytes of fore R,G,B and
 back R,G,B), the `⌈w/8⌉*h` bitmap bytes, the mask bytes. -/
-theorem shape_msg_exact (v : Variant) (s s' : Screen) (useRich : Bool) (m : List UInt8) (c0 : Cursor)
-    (hc0 : s.cursor = some c0) (hwf : c0.WF) (h : cursorShapeRect v s useRich = some (s', m)) :
+theorem shape_msg_exact (v : Variant) (s s' : Screen) (w : Wire) (useRich : Bool) (m : List UInt8) (c0 : Cursor)
+    (hc0 : s.cursor = some c0) (hwf : c0.WF) (h : cursorShapeRect v s w useRich = some (s', m)) :
     ∃ c, s'.cursor = some c ∧ c.w = c0.w ∧ c.h = c0.h ∧ c.xhot = c0.xhot ∧ c.yhot = c0.yhot ∧
       c.mask = c0.mask ∧
       ((isEmptyCursor c = some true ∧ m = rectHeader 0 0 0 0 (if useRich then encRichCursor else encXCursor)) ∨
        (isEmptyCursor c = some false ∧ ∃ pl,
           m = rectHeader c.xhot c.yhot c.w c.h (if useRich then encRichCursor else encXCursor) ++ pl ∧
           (useRich = true → ∃ rich, c.rich = some rich ∧ richOf v s.fmt s.bpp c0 = some rich ∧
-              pl = rich.toList.flatMap (pxBytes s.bpp) ++ c.mask.toList ∧
-              pl.length = c.w * c.h * s.bpp + rowBytes c.w * c.h) ∧
+              pl = (rich.toList.map w.tr).flatMap (pxBytes w.bpp) ++ c.mask.toList ∧
+              pl.length = c.w * c.h * w.bpp + rowBytes c.w * c.h) ∧
           (useRich = false → ∃ src, c.source = some src ∧
               pl = [UInt8.ofNat (c.foreR / 256), UInt8.ofNat (c.foreG / 256), UInt8.ofNat (c.foreB / 256),
                     UInt8.ofNat (c.backR / 256), UInt8.ofNat (c.backG / 256), UInt8.ofNat (c.backB / 256)]
@@ -238,16 +240,16 @@ theorem shape_msg_exact (v : Variant) (s s' : Screen) (useRich : Bool) (m : List
     exact ⟨rich, hrich, by rw [← (g8 hr).1]; exact hrich, hpl', hlen⟩
 
 /-- without an installed cursor the all-zero cursor rectangle is sent -/
-theorem shape_msg_no_cursor (v : Variant) (s : Screen) (useRich : Bool) (hc : s.cursor = none) :
-    cursorShapeRect v s useRich =
+theorem shape_msg_no_cursor (v : Variant) (s : Screen) (w : Wire) (useRich : Bool) (hc : s.cursor = none) :
+    cursorShapeRect v s w useRich =
       some ({ s with cursor := none }, rectHeader 0 0 0 0 (if useRich then encRichCursor else encXCursor)) := by
   unfold cursorShapeRect
   rw [hc, shapeCore_none]; rfl
 
 /-- **shape_fits**: cursors up to 64×64 at up to 4 bytes per pixel fit `UPDATE_BUF_SIZE`
 (regenerated constant), so the `return FALSE /* FIXME */` path is outside the property's range -/
-theorem shape_fits (bpp : Nat) (useRich : Bool) (c : Cursor) (hw : c.w ≤ 64) (hh : c.h ≤ 64) (hb : bpp ≤ 4) :
-    shapeFits bpp useRich c = true :=
+theorem shape_fits (w : Wire) (useRich : Bool) (c : Cursor) (hw : c.w ≤ 64) (hh : c.h ≤ 64) (hb : w.bpp ≤ 4) :
+    shapeFits w useRich c = true :=
   shapeFits_of_le hw hh hb
 
 /-- the rectangle header is 12 bytes; rfbSendCursorPos sends the *screen's* pointer position with
@@ -319,8 +321,9 @@ cursor or none), event-loop rounds with or without an injected write failure.  T
 cursor conversion for a cursor-shape client fails) the session invariant `SessInv` holds at the
 end: the screen is well-formed and for every client and every screen pixel, EITHER the pixel is in
 the client's pending `modifiedRegion` (it will be sent with the next covering request) OR the
-client's picture shows there: the framebuffer with the cursor's masked pixels laid over it at the
-client's pointer position (soft-cursor clients) / the plain framebuffer (cursor-shape clients).
+client's picture shows there, translated into the client's pixel format (`transPx`): the framebuffer
+with the cursor's masked pixels laid over it at the client's pointer position (soft-cursor clients)
+/ the plain framebuffer (cursor-shape clients).
 Together with `dirty_covers_old_and_new` (the client's pointer position catches up with the
 screen's in every update, old and new box being resent) this is "the client's picture equals the
 framebuffer with the cursor laid over it, following the pointer when it moves". -/
@@ -330,7 +333,7 @@ theorem history_invariant (s0 : Sess) (hs0 : s0.scr.WF) (hc0 : s0.clients = []) 
 
 example : ∃ ops : List Op, ops.length = 6 ∧
     (runOps Variant.fixed ⟨witnessScreen, [], none, none⟩ ops).isSome := by
-  refine ⟨[.client 0 .raw, .client 1 .x, .ptr 0 2 0 0, .req 0 true ⟨0, 0, 3, 2⟩, .req 1 false ⟨0, 0, 3, 2⟩, .pump],
+  refine ⟨[.client 0 .raw none, .client 1 .rich (some (⟨31, 63, 31, 11, 5, 0⟩, 2)), .ptr 0 2 0 0, .req 0 true ⟨0, 0, 3, 2⟩, .req 1 false ⟨0, 0, 3, 2⟩, .pump],
     rfl, ?_⟩
   decide +kernel
 
